@@ -91,3 +91,23 @@ CLAIMS['C06'] = dict(technique=GOCV,
        "collectFields' creator yields collected fields with no selections, so concurrent branches never share (and append into) AST storage; Path() allocates fresh storage. "
        "The generated _Mutation executor (no FieldSet.Concurrently reachable) is covered by the probe-proved family contract when listed in the evidence.",
   note=COMMON_NOTE + "No thread model: determinism under interleavings and data-race freedom are NOT decided.")
+
+PROBE = (" Generated-code parts are probe-proved: gqlgen's generator is run from the working tree's templates on the repository's test-server schemas in a scratch copy, "
+         "and every generated function of a family is verified against the family contract (counts per family in the evidence); this is a proof about those generated programs, not about all schemas.")
+
+CLAIMS['C04'] = dict(technique=GOCV + "; family contracts instantiated on code regenerated from the templates",
+  text="Panic containment with the engine's panic/defer/recover model: every generated field function lets no panic escape and on a recovered panic calls the recover hook exactly once, reports exactly one error and returns null; "
+       "fieldContext functions with arguments contain argument-unmarshal panics (hook once, one error); the closures the object executor hands to the concurrent scheduler, the list element closures and the deferred-group goroutine satisfy the spawn rule "
+       "(no panic can leave a goroutine), list element closures still perform their WaitGroup.Done; runtime: Server.ServeHTTP never lets a panic escape and answers a recovered panic with exactly one 422 body, the websocket subscription goroutine lets no panic escape." + PROBE,
+  note=COMMON_NOTE + "User recover/presenter functions assumed not to panic; FieldSet.Dispatch panic-freedom assumed from its registered closures; value preservation outside the failed subtree and liveness not decided.")
+
+CLAIMS['C05'] = dict(technique=GOCV + "; family contracts instantiated on code regenerated from the templates; ghost join accounting",
+  text="Liveness itself is not decidable here; two necessary sequential mechanisms are decided. (1) Join completeness: in every generated list marshaler (incl. worker_limit>0) and in FieldSet.Dispatch each WaitGroup.Add is matched by exactly one spawned "
+       "goroutine or direct Done per element (loop invariant calls(spawn)+calls(Done)==index) and each spawned closure performs exactly one Done on every path including panics, so wg.Wait() is not left waiting. "
+       "(2) Handler draining: SSE, multipart/mixed and websocket call the response handler until it returns nil on every non-panicking path; the five single-payload HTTP transports do not - recorded as known finding D8 (reproduced: leaked deferred-group goroutines)." + PROBE,
+  note=COMMON_NOTE + "No scheduler/thread model: bounded-time termination and 'no goroutine alive' are not decided; WaitGroup/semaphore semantics trusted.")
+
+CLAIMS['C13'] = dict(technique=GOCV + "; family contracts instantiated on code regenerated from the templates",
+  text="Narrow: the merge equivalence is a relation between two executions and is not decided. Decided: collectFields marks fields collected through @defer fragments only after inclusion checks; in every generated object function a deferred field is registered only in the FieldSet of its label and never also in the main set, "
+       "and deferred groups are only started when the object itself is valid; processDeferredGroup increments the pending counter once and starts exactly one goroutine that dispatches the group once and sends exactly one result carrying the group's own path and label." + PROBE,
+  note=COMMON_NOTE + "Channel sends are ghost events; hasNext sequencing and delivery order are not decided.")
